@@ -1,12 +1,11 @@
 CONSTANTS
-  RFiles <- MFiles
+  RFiles <- MListedNoSelf
   RTok <- MTok
   REnc = {"secret"}
   RSig = {"(signature)"}
   REmpty = {"empty"}
   RHetBet = TRUE
-  RUnlisted = {}
-SPECIFICATION CodeSpec
-INVARIANT TargetExact
-
+  RUnlisted <- MUnlisted
+SPECIFICATION HeadSpec
+INVARIANT CountsTruthful
 CHECK_DEADLOCK FALSE
